@@ -105,6 +105,11 @@ with SqliteImpl.impl_store.impl_manager as impl:
         # For some reason SQLite doesn't like negative decimals values
         return sqa.func.ROUND(x / (10**-decimals), type_=x.type) * (10**-decimals)
 
+    @impl(ops.str_strip)
+    def _str_strip(x):
+        # TRIM(x) only removes spaces
+        return sqa.func.TRIM(x, " \t\n\r\x0b\x0c", type_=x.type)
+
     @impl(ops.str_starts_with)
     def _str_starts_with(x, y):
         warn_non_standard(
